@@ -32,6 +32,9 @@ SPEC = {
         {"name": "route", "pkg": "./route", "search_cases": 20000, "quick_cases": 2500, "only": ["inherit_spec"]},
         # the whole pipeline: the assembled instance (engine sys of C01/C04/C05) never lists a suppressed alert in a notification
         {"name": "sys", "pkg": "./sys", "search_cases": 4000, "quick_cases": 250, "timeout_quick": 90, "only": ["route_gate"]},
+        # "the group is reported as muted … by the API": the group marker of a live group survives every interleaving of
+        # maintenance with the re-creation of the group (C06's scheduled engine; its stage is a muted flush)
+        {"name": "groupsched", "pkg": "./groupsched", "search_cases": 3000, "quick_cases": 600, "only": ["route_gate"]},
     ],
     "rule": "interval specifications rendered as YAML (flow quoted / flow plain / block) or JSON and parsed by the real unmarshallers and config.Load "
             "(weekday names and ranges, negative and mixed days of month, month names and numbers, years, 1-3 time ranges incl. 24:00, locations, "
